@@ -132,7 +132,50 @@ func (fr *Frame) callStatic(instr ssa.Instruction, callee *ssa.Function, bind []
 		// anonymous function with statically known target
 		return fr.inline(instr, callee, bind, args, st, reach, rt)
 	}
+	if fr.inlinableHelper(callee) {
+		// a small loop-free helper of the repository without a contract of its own is executed in place: extracting
+		// such a helper from a function under contract (or folding one back) does not change what is proved
+		c.inlineStack = append(c.inlineStack, callee)
+		defer func() { c.inlineStack = c.inlineStack[:len(c.inlineStack)-1] }()
+		return fr.inline(instr, callee, bind, args, st, reach, rt)
+	}
 	return fr.havocCall(instr, full, rt, st, reach)
+}
+
+// inlinableHelper: a named function of the repository without contract that is small, loop-free, not recursive and
+// uses no goroutines, defers or channels.
+func (fr *Frame) inlinableHelper(callee *ssa.Function) bool {
+	c := fr.c
+	if callee == nil || callee.Pkg == nil || callee.Synthetic != "" || len(callee.Blocks) == 0 || c.depth > 3 {
+		return false
+	}
+	if !strings.HasPrefix(callee.Pkg.Pkg.Path(), "github.com/ory/fosite") {
+		return false
+	}
+	if callee == fr.fn {
+		return false
+	}
+	for _, f := range c.inlineStack {
+		if f == callee {
+			return false
+		}
+	}
+	n := 0
+	for _, b := range callee.Blocks {
+		for _, s := range b.Succs {
+			if s.Dominates(b) {
+				return false // loop
+			}
+		}
+		for _, in := range b.Instrs {
+			n++
+			switch in.(type) {
+			case *ssa.Go, *ssa.Defer, *ssa.RunDefers, *ssa.Select, *ssa.Send, *ssa.Range, *ssa.Next, *ssa.MakeChan:
+				return false
+			}
+		}
+	}
+	return n <= 80
 }
 
 // havocCall models a call to a function without contract: anything may have changed.
